@@ -359,6 +359,40 @@ fn cli_part(_toml: &mut TomlBatch) -> Tally {
 	t
 }
 
+/// A writer that fails ONCE after accepting k bytes of the document and works again afterwards, followed
+/// by `Translator::flush`: whatever was handed to the writer must still be a prefix of the one document
+/// (no byte of it may be written a second time, nothing may follow a document that was cut short).
+fn transient_writer_part() -> Tally {
+	use std::cell::RefCell;
+	let mut t = Tally::default();
+	let inputs: [(F, &[u8], bool); 4] = [
+		(F::Json, b"{\"a\":1}", false),
+		(F::Json, b"{\"name\":\"xt\",\"nested\":{\"k\":\"v\",\"l\":[1,2]}}", true),
+		(F::Yaml, b"name: xt\nnested:\n  k: v\n", true),
+		(F::Msgpack, b"\x82\xa1a\x01\xa1t\x81\xa1b\xc3", false),
+	];
+	for (src, input, reader) in inputs {
+		let clean = if reader { crate::run::run_reader(crate::run::ChunkReader::new(input, 0), Some(src), F::Toml) } else { crate::run::run_slice(input, Some(src), F::Toml) };
+		assert!(clean.ok, "MACHINERY: C08 transient-writer input does not translate");
+		for k in 0..clean.out.len() {
+			let (w, acc) = crate::env::FailAtWriter::once(k);
+			let mut tr = xt::Translator::new(w, F::Toml.xt());
+			let scratch = RefCell::new(Vec::new());
+			let first = crate::run::guarded(&scratch, || if reader { tr.translate_reader(crate::run::ChunkReader::new(input, 0), Some(src.xt())) } else { tr.translate_slice(input, Some(src.xt())) });
+			let flushed = crate::run::guarded(&scratch, || tr.flush().map_err(Into::into));
+			drop(tr);
+			t.evaluations += 1;
+			t.count("transient-writer-fault-then-flush");
+			let acc = acc.borrow();
+			if first.panic.is_some() || flushed.panic.is_some() || !clean.out.starts_with(&acc) {
+				t.bad("toml-bytes-written-after-a-failed-write", json!({"kind": "transient-writer", "src": src.name(), "input_hex": hex(input), "k": k, "reader": reader}),
+					format!("{} -> TOML, the writer fails once after {k} bytes, then flush: the writer received {} which is not a prefix of the document {}", show(input), show(&acc), show(&clean.out)));
+			}
+		}
+	}
+	t
+}
+
 pub fn run(ctx: &Ctx) -> CheckOutput {
 	let thorough = ctx.thorough();
 	let alpha = alphabet();
@@ -440,6 +474,7 @@ pub fn run(ctx: &Ctx) -> CheckOutput {
 	let cli = cli_part(&mut TomlBatch::default());
 	let mut tally = Tally::default();
 	tally.merge(cli);
+	tally.merge(transient_writer_part());
 	let mut toml = TomlBatch::default();
 	for a in ah.into_iter().chain(ai) {
 		tally.merge(a.t);
@@ -464,11 +499,11 @@ pub fn run(ctx: &Ctx) -> CheckOutput {
 		tally.bad(class, case.clone(), format!("{desc}: TOML output {}: {detail}", show(out)));
 	}
 	let req = |k: &str| (k.to_string(), *tally.counters.get(k).unwrap_or(&0));
-	let required = vec![req("histories:len1"), req("histories:len2"), req("histories:len3"), req("single:accept-expected"), req("single:refusal-expected"), req("single:outside-common-model"), req("toml-outputs-read-by-tomllib"), req("cli:toml-target-input-lists"), req("cli:sized-document-then-refused-document")];
+	let required = vec![req("histories:len1"), req("histories:len2"), req("histories:len3"), req("single:accept-expected"), req("single:refusal-expected"), req("single:outside-common-model"), req("toml-outputs-read-by-tomllib"), req("cli:toml-target-input-lists"), req("cli:sized-document-then-refused-document"), req("transient-writer-fault-then-flush")];
 	CheckOutput {
 		level: "model_checking",
 		tally,
-		rule: format!("(H) alphabet of {} inputs (per source format: table, second table, empty table, array root, scalar root, null inside, 0 documents, 2 documents, empty table + table, syntax error; slice and reader); all histories of 1 and 2 calls and {} of 3 calls on ONE Translator(TOML), judged against a reference model (a document is refused once any document was presented before it; accepted iff table-rooted, null-free, ints within i64, string keys); per call the bytes appended must be exactly that document's TOML or nothing, the total must be nothing or ONE document that Python tomllib parses, equal to the table-reordered value. (I) every map-rooted tree with <= {} nodes, and every way of planting null / u64 / non-string key / binary / null-in-array at any node of it; non-table roots; every string of the string family as key (top-level and nested); array shapes (heterogeneous, of tables, of arrays of tables, mixed); from JSON, YAML and MessagePack, slice and reader. (CLI) every list of 1-3 inputs over 9 files/stdin with -t toml through the real binary: exit status and stdout equal those of ONE in-process Translator (the second document or input is refused, stdout holds the first document only).", alpha.len(), "all", n),
+		rule: format!("(H) alphabet of {} inputs (per source format: table, second table, empty table, array root, scalar root, null inside, 0 documents, 2 documents, empty table + table, syntax error; slice and reader); all histories of 1 and 2 calls and {} of 3 calls on ONE Translator(TOML), judged against a reference model (a document is refused once any document was presented before it; accepted iff table-rooted, null-free, ints within i64, string keys); per call the bytes appended must be exactly that document's TOML or nothing, the total must be nothing or ONE document that Python tomllib parses, equal to the table-reordered value. (I) every map-rooted tree with <= {} nodes, and every way of planting null / u64 / non-string key / binary / null-in-array at any node of it; non-table roots; every string of the string family as key (top-level and nested); array shapes (heterogeneous, of tables, of arrays of tables, mixed); from JSON, YAML and MessagePack, slice and reader. (CLI) every list of 1-3 inputs over 9 files/stdin with -t toml through the real binary: exit status and stdout equal those of ONE in-process Translator (the second document or input is refused, stdout holds the first document only); TOML renderings of every ladder size followed by a refused document (stdout: nothing or exactly the document). A writer that fails once after k bytes (every k) and then recovers, followed by Translator::flush: what it received stays a prefix of the one document.", alpha.len(), "all", n),
 		exhaustive: true,
 		bounds: json!({"history_depth": 3, "tree_nodes": n}),
 		assumptions: vec![
